@@ -10,7 +10,6 @@ import (
 	"encoding/json"
 	"fmt"
 	"os"
-	"runtime/pprof"
 	"sort"
 	"strconv"
 	"strings"
@@ -55,11 +54,6 @@ func convUpper() uint64 { return refMaxPowPlasma*refDiffPerPlasma + 1<<20 }
 func run(c *xs.Ctx, r *xs.Result) {
 	vnode.Quiet()
 	ownGlobals()
-	if p := os.Getenv("C12_PROF"); p != "" && c.Shard == 3 {
-		f, _ := os.Create(p)
-		pprof.StartCPUProfile(f)
-		time.AfterFunc(30*time.Second, func() { pprof.StopCPUProfile(); f.Close() })
-	}
 	b := boundsOf(c.Thorough())
 	if c.Replay != nil {
 		replay(c, r, b)
@@ -262,12 +256,15 @@ func replay(c *xs.Ctx, r *xs.Result, b bounds) {
 	}
 }
 
-const rule = "PoW: every difficulty d of {1..4096} ∪ {2^k−1,2^k,2^k+1 : k=1..64, ≤ 2^64−1} ∪ {least difficulty buying each base cost, ±1} × nonces 0..N−1 (little endian) × 2 (address, previous hash) subjects " +
-	"through pow.CheckPoWNonce vs. the math/big reference work ≥ 2^64−⌊2^64/d⌋; for d ≤ searchMax also the least valid nonce (found by counting up from 0) and the least claim that nonce does NOT support; " +
-	"getTargetByDifficulty/greaterDifficulty at threshold−1/threshold/threshold+1 and byte-reversed values; DifficultyToPlasma on every difficulty 0..max+2^20 and the sparse 64-bit set, its inverse on every plasma 0..94502, FussedAmountToPlasma at every unit boundary ±1. " +
-	"Accounting: per fused-QSR configuration, breadth of every (block kind × FusedPlasma ∈ {0,1,base−4,base−3,base−1,base,base+1,avail−1,avail,avail+1,cap−1,cap,cap+1} × PoW option) candidate in every reached model state " +
-	"(committed, Σ unconfirmed fused, #unconfirmed, depth left), sequences of ≤ depth accepted blocks and ≤ 1 confirming momentum; one representative concrete history per distinct model state. " +
-	"non-trivial = PoW difficulties for which both an accepted and a rejected nonce were observed + distinct conversion outputs + accounting model states in which at least one candidate was accepted and one rejected (distinct, counted by set)."
+const rule = "PoW: every difficulty d of {1..4096} ∪ {2^k−1,2^k,2^k+1 : k=1..64, ≤ 2^64−1} ∪ {least difficulty buying each base cost, ±1} × nonces 0..N−1 (little endian; N=256 quick, 4096 thorough) × 2 (address, previous hash) subjects " +
+	"through pow.CheckPoWNonce vs. the math/big reference work ≥ 2^64−⌊2^64/d⌋; for d ≤ searchMax (2^20 quick, 2^23 thorough) also the least valid nonce (found by counting up from 0), the least claim that nonce does NOT support and the claim just below it; " +
+	"getTargetByDifficulty/greaterDifficulty at threshold−1/threshold/threshold+1, 0, 2^64−1 and byte-reversed values; DifficultyToPlasma on every difficulty 0..max+2^20 and on the sparse 64-bit set, its inverse on every plasma 0..94502, FussedAmountToPlasma at every unit boundary ±1 and around 2^63/2^64. " +
+	"Accounting (explicit-state search on a real node per fused-QSR configuration {0,1,10,11,25,5000,5001}(+{541,4999} thorough)): in every expanded model state (committed, Σ unconfirmed fused, #unconfirmed, blocks left, momentums used) every candidate " +
+	"block kind × FusedPlasma ∈ {0,base−4,base−3,base−1,base,base+1,avail,avail+1,cap,cap+1}(+{1,avail−1,cap−1,2^64−4,2^64−1} in the rich domain) × PoW option ∈ {none, 6000 valid, 5999 valid, 6000 bad nonce, 2^63 bad nonce}(+{1500 valid, 2^64−1 bad nonce} rich; +{W·1500 valid, W·1500−1, W·1500 bad nonce} for W=512 and W=21000 at selected root states) " +
+	"is decided by the real ApplyBlock, compared with the reference model, and when accepted inserted into the pool and the plasma counters compared; sequences are continued (depth ≤ 3 quick / 4 thorough blocks) through one representative per distinct successor model state reached by an 'extension' block " +
+	"(fused = base, base−4 topped up by PoW, everything left; quick also base+1), kind-relative fused amounts in non-decreasing order only (the model is commutative in them); every continued state is also confirmed by a momentum on a rebuilt node (committed counter must move by exactly the confirmed fused plasma) and explored 1 (quick) / 2 (thorough) blocks further. " +
+	"Acknowledged-momentum dimension: fuse, (0–2 confirmed blocks), cancel; then kind ∈ {send, receive} × boundary FusedPlasma × every momentum height as acknowledged momentum. " +
+	"distinct_nontrivial = (PoW difficulties for which both an accepted and a rejected nonce were observed) + (accounting model states in which at least one candidate was accepted and at least one rejected), each counted once by set membership."
 
 func init() {
 	xs.Register(&xs.Check{
@@ -287,7 +284,9 @@ func init() {
 			"constants.FuseMinAmount is lowered to 1 QSR in the worker processes so that a fusion smaller than one base block (2100 plasma) exists; all other plasma constants are the repository's; the reference uses its own independently written table of the same numbers",
 			"the hash primitive (sha3-256 from golang.org/x/crypto) and ed25519 are trusted; the reference is independent in arithmetic only",
 			"blocks are hand-built, hashed and signed by the check and decided by vm.Supervisor.ApplyBlock followed by chain.AddAccountBlockTransaction (what protocol.ChainBridge.AddAccountBlocks does); siblings explored at the same height are replaced with the pool's ForceAddAccountBlockTransaction",
-			"every block acknowledges the frontier momentum; rejections are not required to be justified (only counted per reason)",
+			"constants.FuseExpiration is lowered to 2 momentums in the worker processes so that a fusion can be cancelled inside a short history (used only by the acknowledged-momentum scenarios)",
+			"in the main exploration every block acknowledges the frontier momentum; rejections are not required to be justified (only counted per reason)",
+			"state-space reduction: one concrete history per reference-model state; kind-relative fused amounts only in non-decreasing order (commutativity of the reference model)",
 		},
 		Rule: rule,
 		Run:  run,
